@@ -23,17 +23,16 @@ Definition kind_code (k : list N) : option N :=
   else if text_eqb k k_ENUM then Some 4 else if text_eqb k k_INPUT_OBJECT then Some 5 else None.
 
 (* get_type of build_client_schema; fuel = number of nested objects it may open *)
+Definition is_str (j : json) (k : list N) : bool :=
+  match j with JStr x => text_eqb x k | _ => false end.
+
 Fixpoint tref_of (fuel : nat) (j : json) : option tref :=
   match fuel with
   | O => None
   | S f =>
-    match get_key k_kind j with
-    | JStr k =>
-        if text_eqb k k_LIST then option_map TList (tref_of f (get_key k_ofType j))
-        else if text_eqb k k_NON_NULL then option_map TNonNull (tref_of f (get_key k_ofType j))
-        else option_map TNamed (jstr (get_key k_name j))
-    | _ => None
-    end
+    if is_str (get_key k_kind j) k_LIST then option_map TList (tref_of f (get_key k_ofType j))
+    else if is_str (get_key k_kind j) k_NON_NULL then option_map TNonNull (tref_of f (get_key k_ofType j))
+    else option_map TNamed (jstr (get_key k_name j))   (* a named type is looked up by its name *)
   end.
 
 Definition REF_FUEL : nat := 10.
